@@ -1,2 +1,60 @@
-(* C03 (statements follow) *)
-From GJS Require Import Base Regex Schema GoType Exec.
+(* C03 - a value of the wrong JSON type is rejected; null is accepted where allowed.
+   Statements only; every proof is `exact <lemma>`; Print Assumptions under each. *)
+From GJS Require Import Base Regex Schema GoType Gen Exec Valid ExecP GenP CoreP.
+
+(* scalar Go types (string, bool, float64, every int kind, the format types) accept exactly their
+   own JSON type; an integer kind accepts only integral numbers written as integer literals within
+   its range; every other non-null value is rejected - for every fuel *)
+Theorem C03_scalar : forall fmt_ok env f t j,
+  is_base t = true -> j <> JNull -> base_accepts fmt_ok t j = false -> is_ok (dec fmt_ok env f t j) = false.
+Proof. exact dec_base_type. Qed.
+Print Assumptions C03_scalar.
+
+Theorem C03_array : forall fmt_ok env f inl e j, j <> JNull -> (forall l, j <> JArr l) -> is_ok (dec fmt_ok env f (TSlice inl e) j) = false.
+Proof. exact dec_slice_type. Qed.
+Print Assumptions C03_array.
+Theorem C03_map : forall fmt_ok env f e j, j <> JNull -> (forall kv, j <> JObj kv) -> is_ok (dec fmt_ok env f (TMap e) j) = false.
+Proof. exact dec_map_type. Qed.
+Print Assumptions C03_map.
+Theorem C03_object : forall fmt_ok env f name fs plan j, j <> JNull -> (forall kv, j <> JObj kv) ->
+  is_ok (dec fmt_ok env f (TStruct name fs plan) j) = false.
+Proof. exact dec_struct_type. Qed.
+Print Assumptions C03_object.
+
+(* at every nesting depth and through references: a rejected component rejects the document *)
+Theorem C03_every_depth : forall fmt_ok env t j t' j', inside_star env t j t' j' ->
+  (forall f, is_ok (dec fmt_ok env f t' j') = false) -> forall f, is_ok (dec fmt_ok env f t j) = false.
+Proof. exact inside_star_fails. Qed.
+Print Assumptions C03_every_depth.
+
+(* where the schema lists null ([T, "null"] becomes a pointer; arrays, maps and untyped positions are
+   nillable as they are) null is accepted and yields nil *)
+Theorem C03_null : forall fmt_ok env f t, S f <> 0 ->
+  (match t with TPtr _ | TSlice _ _ | TMap _ | TIface | TNullT => true | _ => false end) = true ->
+  dec fmt_ok env (S f) t JNull = Ok GNil.
+Proof. exact dec_null_nil. Qed.
+Print Assumptions C03_null.
+
+(* the type chosen for a nullable primitive is a pointer to the primitive's type *)
+Theorem C03_nullable_is_pointer : forall cf t fmt b,
+  match t with SString | SNumber | SInteger | SBoolean => True | _ => False end ->
+  exists u b', primitive cf t fmt true b = Done (TPtr u, b') /\ primitive cf t fmt false b = Done (u, b').
+Proof.
+  intros cf t fmt b H. destruct t; try contradiction; cbn.
+  - destruct fmt; eexists; eexists; split; reflexivity.
+  - destruct (primitive_int (g_minsized cf) b) as [k b']. eexists; eexists; split; reflexivity.
+  - eexists; eexists; split; reflexivity.
+  - eexists; eexists; split; reflexivity.
+Qed.
+Print Assumptions C03_nullable_is_pointer.
+
+Example C03_example : forall env f,
+  is_ok (dec (fun _ _ => true) env f (TInt KInt) (JQ (3 # 2))) = false /\
+  is_ok (dec (fun _ _ => true) env f TString (JInt 1)) = false /\
+  inside_star env (TSlice true (TPtr TString)) (JArr [JStr [97]%N; JBool true]) TString (JBool true).
+Proof.
+  intros env f. repeat split.
+  - apply dec_base_type; [reflexivity|discriminate|reflexivity].
+  - apply dec_base_type; [reflexivity|discriminate|reflexivity].
+  - eapply is_step; [apply in_slice; right; left; reflexivity|]. eapply is_step; [apply in_ptr; discriminate|]. apply is_refl.
+Qed.
